@@ -398,11 +398,13 @@ def worker(job):
         return part.dump()
     rng = random.Random(job['seed'])
     for n in range(job['n']):
-        case = warcwork.gen_overlap_case(rng) if rng.random() < 0.12 else warcwork.gen_case(rng)
+        r0 = rng.random()
+        case = warcwork.gen_overlap_case(rng) if r0 < 0.12 else warcwork.gen_redirect_case(rng) if r0 < 0.2 else warcwork.gen_case(rng)
         if prop == 'C07':
             case['config']['cdx'] = True
-            vary_content_types(rng, case)
-        if prop == 'C05' and not case.get('overlap') and not case.get('whole_only') and rng.random() < 0.05:
+            if case['seq']:
+                vary_content_types(rng, case)
+        if prop == 'C05' and case['seq'] and not case.get('overlap') and not case.get('whole_only') and rng.random() < 0.05:
             # the last response is preceded by an interim 100 Continue / 103 Early Hints message.  Which of the two messages
             # the client takes for the response is C08's subject; whatever it archives must be a valid record whose payload
             # digest is that of the bytes after the block's first header block
@@ -413,7 +415,13 @@ def worker(job):
             case.pop('stall_last_at', None)
             case['config']['dedup'] = False       # (the dedup seeding presumes which message is the response)
             part.count('cases_ending_with_an_interim_response')
-        if case.get('overlap'):
+        if case.get('redirects'):
+            obs = warcwork.run_case(case)
+            part.evaluations += 1
+            part.count('cases_with_followed_redirects')
+            ORACLES[prop](obs, part, case)
+            note_nontrivial(part, obs, 'redirects')
+        elif case.get('overlap'):
             obs = warcwork.run_case(case)
             part.evaluations += 1
             part.count('cases_with_exchanges_in_flight_at_once')
